@@ -461,6 +461,37 @@ fn one_shot(steps: &[Step]) -> String {
     all.join(", ")
 }
 
+/// A client that enters the next line while the previous one is still running (quiver-web's glue
+/// allows it; run configuration of the client, `nowait>`): the running line has bindings before and
+/// after a point where it is parked (a spawn, an await), which is when the early line arrives.
+fn eager_line(rng: &mut Rng) -> Scenario {
+    let (a, b, m) = (rng.range(1, 90), rng.range(1, 90), rng.range(1, 90));
+    let sp = *rng.pick(&[0u32, 20, 200]);
+    let mut h = crate::rng::Fnv::default();
+    h.u64(0xea9e);
+    h.u64(sp as u64);
+    let ops = vec![
+        ClientOp::Line { session: 0, src: format!("{}, z = 100", super::c04::SPIN) },
+        ClientOp::Line { session: 0, src: format!("nowait>a = {a}, p = @#{{ !#'int }}, w = [{sp}, 0] spin, b = {b}, {m} p, c = !p, [z, a, b, c]") },
+        ClientOp::Line { session: 0, src: "nowait>[z, 7]".to_string() },
+        // a second session ends the script; the first is judged from the process table
+        ClientOp::Line { session: 1, src: format!("{}, w = [800, 0] spin", super::c04::SPIN) },
+    ];
+    Scenario {
+        family: "c11-eager-client".into(),
+        ops,
+        modules: vec![],
+        files: Default::default(),
+        timing: false,
+        io: false,
+        fixed_faults: Default::default(),
+        expect: serde_json::json!({ "eager": [format!("[100, {a}, {b}, {m}]"), "[100, 7]"] }),
+        shape: h.0,
+        est_len: 150,
+        min_quantum: 0,
+    }
+}
+
 impl Property for C11 {
     fn id(&self) -> &'static str {
         "C11"
@@ -493,6 +524,9 @@ impl Property for C11 {
         vec!["line_value_compared", "vars_compared", "rejected_line_between_accepted", "line_with_several_steps", "second_session_interleaved", "repl_compaction_with_heap_locals", "background_process_awaited_on_later_line", "lines_after_top_level_tail_call", "vars_read_after_nil_line"]
     }
     fn generate(&self, rng: &mut Rng, _tier: Tier) -> Scenario {
+        if rng.chance(1, 30) {
+            return eager_line(rng);
+        }
         let mut g = G { ints: vec![], bins: vec![], tuples: vec![], fns: vec![], gfns: vec![], procs: vec![], hfns: vec![], optf: vec![], clsf: vec![], unions: vec![], narrowed: vec![], dispf: vec![], n: 0, last_int: false, lit: 0x20 };
         let mut steps: Vec<Step> = vec![Step { src: super::c04::SPIN.to_string(), alias: false, fails: false, tailcall: false, narrows: None, needs_narrowed: None, dispatch_def: None, dispatch_call: None }, Step { src: WD.to_string(), alias: false, fails: false, tailcall: false, narrows: None, needs_narrowed: None, dispatch_def: None, dispatch_call: None }];
         let n = 4 + rng.usize(8);
@@ -552,6 +586,9 @@ impl Property for C11 {
         }
     }
     fn prepare(&self, scn: &mut Scenario, case_seed: u64) -> Vec<(Violation, RunSpec, RunResult)> {
+        if scn.expect.get("eager").is_some() {
+            return Vec::new();
+        }
         let mut e: Expect = serde_json::from_value(scn.expect.clone()).unwrap();
         let mut bad = Vec::new();
         let mut est = 0;
@@ -767,6 +804,16 @@ impl Property for C11 {
     }
     fn judge(&self, scn: &Scenario, _refdata: Option<&RefData>, r: &RunResult) -> Vec<Violation> {
         let mut v = Vec::new();
+        if let Some(legal) = scn.expect.get("eager").and_then(|x| x.as_array()) {
+            // a line entered while the previous one still runs: the early line is either not started
+            // (the session ends with the running line's value) or, if the running line had finished
+            // by then, evaluated after it; the running line must not be damaged
+            let got = r.procs.get("R0").cloned().unwrap_or_default();
+            if !legal.iter().any(|l| l.as_str() == Some(got.as_str())) {
+                v.push(Violation::new("C11", "line-value", "running-line-damaged-by-early-line", format!("the session process ended with {got}; the line that was running when the next one was entered yields {}, as the same steps do as one program", legal[0]), r.steps));
+            }
+            return v;
+        }
         let Ok(e) = serde_json::from_value::<Expect>(scn.expect.clone()) else { return v };
         if e.prefix_values.len() != e.steps.len() {
             return v; // reference incomplete (reported by prepare)
